@@ -11,6 +11,8 @@ for id in $ids; do
   if ! (cd $s/repo && git init -q . 2>/dev/null && git apply --check $p 2>/dev/null); then echo "$id: DOES-NOT-APPLY" | tee $d/govc.txt; rm -rf $s; continue; fi
   (cd $s/repo && git apply $p)
   /verif/bin/govc verify -repo $s/repo -all -property ALL -evidence $s/ev.json -replays $s/replays 2>&1 | grep -E "VIOLATION|property ALL|UNSUPPORTED|govc:" | cut -c1-300 > $d/govc.txt
-  echo "$id: $(grep -c VIOLATION $d/govc.txt) violations; $(tail -1 $d/govc.txt | cut -c1-120)"
+  prop=${id%%_*}
+  /verif/bin/govc verify -repo $s/repo -property $prop -evidence $s/evp.json -replays $s/replaysp 2>&1 | grep -E "VIOLATION|property $prop|UNSUPPORTED|govc:" | cut -c1-300 > $d/govc_prop.txt
+  echo "$id: ALL=$(grep -c VIOLATION $d/govc.txt) $prop=$(grep -c VIOLATION $d/govc_prop.txt); $(tail -1 $d/govc.txt | cut -c1-100)"
   rm -rf $s
 done
